@@ -166,3 +166,30 @@ func itoa(i int) string {
 	}
 	return string(b)
 }
+
+// C06_BlockValues: inside a block an identifier can denote a nested block
+// (the child is stored under its type as a field); every operator applied to
+// such a value must give a result or a runtime error, never a panic.
+func C06_BlockValues() {
+	exprs := []string{
+		"b", "b == b", "b != b", "b == 1", "1 == b", "b == nil", "b < b", "b + 1", "\"s\" + b", "b * 2", "\"s\" * b",
+		"- b", "+ b", "not b", "b and 1", "b or 1", "1 and b", "nil or b", "b / 0", "b - b", "x = b", "(b) == (b)", "b >= b",
+	}
+	e := exprs[verif.Choice("expr", len(exprs))]
+	stmt := []string{"print ", "y = ", "var v = "}[verif.Choice("stmt", 3)]
+	k := verif.Int("k")
+	src := "def a {\n def b {\n f = 1001\n}\n " + stmt + e + "\n}\n"
+	out, log := &symio.Writer{}, &symio.Writer{}
+	p, err := bcl.Parse([]byte(src), "x", bcl.OptOutput(out), bcl.OptLogger(log))
+	if err != nil {
+		panic("rejected: " + log.String())
+	}
+	patchConst(p, 1001, k)
+	_, _, xerr := bcl.Execute(p)
+	verif.Observe("exec-err", xerr != nil)
+	if xerr != nil {
+		verif.Reach("runtime-error")
+	} else {
+		verif.Reach("executed")
+	}
+}
